@@ -6,7 +6,6 @@ use crate::script::*;
 use libp2p_core::{Multiaddr, PeerRecord, SignedEnvelope};
 use libp2p_identity::PeerId;
 use libp2p_rendezvous as rendezvous;
-use simkit::runner::NO_FAULTS;
 use simkit::*;
 use std::collections::{BTreeMap, BTreeSet};
 use std::sync::{Arc, Mutex};
@@ -20,11 +19,11 @@ pub fn checks() -> Vec<Check> {
         id: "C51",
         title: "Rendezvous registrations obey TTL, limits and refresh semantics",
         level: Level::Exploration,
-        rule: "A real rendezvous::server::Behaviour (min_ttl 1..5 s, max_ttl 10..120 s, max registrations per peer 1..3, total 2..6) serves 2..4 scripted clients. Seeded sequences of REGISTER (namespaces a/b/c, TTL below/inside/above the range or absent, every registration carries a signed peer record whose address encodes a generation number), UNREGISTER, DISCOVER (namespace or all, optional limit, with or without a cookie returned earlier) and time steps (virtual clock drives expiry). A reference map is folded from the server's answers. Violations: OK for a TTL outside [min_ttl,max_ttl]; more registrations per peer or in total than configured after an accepted REGISTER; a refresh of an existing (peer, namespace) refused although its TTL is valid; DISCOVER returning a registration that the model has expired for more than a second, removed, or superseded by a newer generation; a cookie chain returning the same registration generation twice",
+        rule: "A real rendezvous::server::Behaviour (min_ttl 1..5 s, max_ttl 10..120 s, max registrations per peer 1..3, total 2..6) serves 2..4 scripted clients. Seeded sequences of REGISTER (namespaces a/b/c, TTL below/inside/above the range or absent, every registration carries a signed peer record whose address encodes a generation number), UNREGISTER, DISCOVER (namespace or all, optional limit, with or without a cookie returned earlier) time steps (virtual clock drives expiry) and connection resets with re-dial (fault transport_reset). A reference map is folded from the server's answers. Violations: OK for a TTL outside [min_ttl,max_ttl]; more registrations per peer or in total than configured after an accepted REGISTER; a refresh of an existing (peer, namespace) refused although its TTL is valid; DISCOVER returning a registration that the model has expired for more than a second, removed, or superseded by a newer generation; a cookie chain returning the same registration generation twice",
         assumptions: &["security/muxing stubbed (E2 stack)", "the model follows the server's accept/refuse answers (only the clauses of the property are judged, not whether every admissible request is accepted)"],
         real: &["rendezvous server Behaviour, its request-response handler and codec, signed peer record validation"],
         stub: &["transport/security/muxer -> SimTransport/SimMuxer", "rendezvous clients -> scripted frames", "clock -> virtual"],
-        scenarios: vec![Scenario::new("rendezvous-server", 300, 30_000, rendezvous_server).profiles(NO_FAULTS)],
+        scenarios: vec![Scenario::new("rendezvous-server", 300, 30_000, rendezvous_server)],
     }]
 }
 
@@ -173,6 +172,21 @@ fn rendezvous_server() -> SimResult {
                     tag += 1;
                     clients[c].node.with(|b| b.open(speer, None, OpenReq { tag, proto: PROTO.into(), send: vec![discover(ns.as_deref(), limit, cookie.as_deref())], read: 1, after: After::Close }));
                     pending.insert(tag, (c, Pending::Discover { ns, cookie }));
+                }
+                8 => {
+                    // fault: the client's connection is reset; it dials again (registrations are per peer, not per connection)
+                    if fault("transport_reset", 500) {
+                        let n = net::conn_count();
+                        if n > 0 {
+                            net::reset_conn(choose(n));
+                        }
+                        settle(Duration::from_millis(5));
+                    }
+                    for cl in &clients {
+                        if !cl.node.connections_to(&speer) {
+                            cl.node.dial_new(speer, saddr.clone());
+                        }
+                    }
                 }
                 _ => {
                     advance(Duration::from_secs([1u64, 2, 5, 20, 60][choose(5)]));
